@@ -202,6 +202,14 @@ def execute(ctx, case: dict) -> None:
                 acl.ungroup()
                 acl.group(prefix)
                 _record(acl, "regroup")
+            elif op == "append-remark":
+                # a plain remark put behind the blocks through the list API: the top level now mixes blocks and a loose remark
+                from cisco_acl import Remark  # pylint: disable=import-outside-toplevel
+
+                acl.append(Remark("remark loose tail", platform=acl.platform))
+                base[:] = _body(acl)
+                LOG[:] = []
+                _record(acl, "start")
             elif op == "assign-self":
                 # the items assigned to themselves through the setter (plain and augmented assignment): nothing may get lost
                 if rng.random() < 0.5:
@@ -310,7 +318,21 @@ def gen_case(rng, thorough=False):
                 mem["dst"] = [spell(rng, rand_cube(rng, 1), platform, "Address") for _ in range(rng.randint(0, 4))]
             if mem:
                 members[str(idx)] = mem
-    text = grammar.acl_header(platform, "C15") + "\n" + "\n".join("  " + ln for ln in lines)
+    acl_type = "extended"
+    if platform == "ios" and rng.random() < 0.1:
+        # a standard ACL: source addresses only; an address group as source is accepted and has members like any other
+        acl_type = "standard"
+        new_lines, new_members = [], {}
+        for idx, ln in enumerate(lines):
+            if ln.startswith("remark"):
+                new_lines.append(ln)
+                continue
+            src = rng.choice(["any", f"host 10.0.0.{idx + 1}", f"10.{idx}.0.0 0.0.255.255", f"object-group GS{idx}", f"object-group GS{idx}"])
+            new_lines.append(f"{rng.choice(['permit', 'deny'])} {src}")
+            if src.startswith("object-group"):
+                new_members[str(idx)] = {"src": [spell(rng, rand_cube(rng, 1), platform, "Address") for _ in range(rng.randint(0, 4))]}
+        lines, members = new_lines, new_members
+    text = grammar.acl_header(platform, "C15", acl_type) + "\n" + "\n".join("  " + ln for ln in lines)
     ops = ["group"]
     for _ in range(rng.randint(1, 6)):
         ops.append(rng.choice(["reverse", "shuffle", "rotate", "sort-key", "sort-rev", "regroup", "shuffle", "reseq-shuffle-sort",
@@ -320,6 +342,8 @@ def gen_case(rng, thorough=False):
         ops.insert(rng.randint(0, len(ops)), "degroup-address")
     if members and rng.random() < 0.4:
         ops.insert(rng.randint(1, len(ops)), "members-change")
+    if rng.random() < 0.25:
+        ops.insert(rng.randint(1, len(ops)), "append-remark")
     if rng.random() < 0.3 and "members-change" not in ops:
         ops = ["reseq-shuffle-sort", "group", "reseq-shuffle-sort", "ungroup"]
     return {"platform": platform, "prefix": prefix, "text": text, "members": members, "ops": ops,
